@@ -87,6 +87,7 @@ pub trait Property: Sync {
 pub fn all() -> Vec<Box<dyn Property>> {
     vec![
         Box::new(crate::props::c07::C07),
+        Box::new(crate::props::c08::C08),
         Box::new(crate::props::c09::C09),
         Box::new(crate::props::c10::C10),
         Box::new(crate::props::c19::C19),
